@@ -209,6 +209,10 @@ def run(ctx):
     # ---------------------------------------------------------------- C15.ARGS
     from ..rules_common import check_call_arguments
     check_call_arguments(ctx, "C15.ARGS", "C15")
+    from ..rules_common import check_effect_tables
+    check_effect_tables(ctx, "C15")
+    from ..rules_common import check_presence_tests, ARG_SCOPE
+    check_presence_tests(ctx, "C15.PRESENCE", classes=ARG_SCOPE.get("C15", []))
 
 
 def _fuzzy_negated(test):
